@@ -394,9 +394,14 @@ class BVReduceBW:
     def global_mutations(self, node, input_):
         bw = get_bv_width(node[1])
         bws = sorted(set([bw - 1, bw // 2, 2, 1]))
+        if is_piped_symbol(node[1]):
+            varname = '|_{}|'.format(node[1][1:-1])
+        else:
+            varname = '_{}'.format(node[1])
+        if is_var(Node(varname)):
+            return
         for b in bws:
             if 0 < b < bw:
-                varname = '_{}'.format(node[1])
                 var = Node('declare-const', varname, Node('_', 'BitVec', b))
                 zext = Node('define-fun', node[1], (), get_sort(node[1]),
                             Node(Node('_', 'zero_extend', bw - b), varname))
